@@ -264,7 +264,47 @@ class Ctx:
                     self.theorems.append((nm, ax, base))
                 else:
                     self.theorems.append((nm, None, base))
+        if ok and self.thorough and os.environ.get('VERIF_COQCHK', '1') != '0':
+            self.run_coqchk(props_paths, timeout=int(os.environ.get('VERIF_COQCHK_TIMEOUT', '1500')))
         return ok
+
+    def run_coqchk(self, props_paths, timeout=1500):
+        """Thorough tier: re-check the compiled Props libraries and everything they depend on with the
+        independent checker (coqchk -o prints the axioms of the whole closure).  Closures that import
+        Interval/Coquelicot re-check those libraries too and do not finish in the budget: a timeout is
+        recorded as such and is not a failure; a coqchk ERROR is a proof failure."""
+        res = {}
+        def one(p):
+            lib = 'P.' + os.path.splitext(os.path.basename(p))[0]
+            cmd = ['timeout', str(timeout), 'coqchk', '-silent', '-o', '-Q', os.path.join(COQDIR, 'Base'), 'PTBase',
+                   '-Q', os.path.join(COQDIR, 'Model'), 'PTModel', '-Q', 'Gen', 'Gen', '-Q', 'P', 'P', lib]
+            t0 = time.time()
+            rc, out = sh(cmd, cwd=self.build, timeout=timeout + 60)
+            return lib, rc, out, time.time() - t0
+        with ThreadPoolExecutor(max_workers=max(1, min(4, len(props_paths)))) as ex:
+            for lib, rc, out, dt in ex.map(one, props_paths):
+                summ = out[out.find('CONTEXT SUMMARY'):] if 'CONTEXT SUMMARY' in out else out[-1500:]
+                axioms = []
+                m = re.search(r'\* Axioms:(.*?)\n\s*\n\* Constants', summ, re.S)
+                if m: axioms = [a.strip() for a in m.group(1).split('\n') if a.strip() and a.strip() != '<none>']
+                unsafe = [l.strip() for l in summ.splitlines() if l.startswith('* ') and ('type-in-type' in l or 'unsafe' in l or 'positivity' in l) and '<none>' not in l]
+                if rc == 124:
+                    res[lib] = {'status': 'not finished in %d s (closure too large)' % timeout}
+                    self.log('coqchk', lib, 'did not finish in', timeout, 's')
+                elif rc != 0:
+                    res[lib] = {'status': 'ERROR', 'detail': out[-1500:]}
+                    self.proof_failures.append({'kind': 'proof', 'name': 'coqchk(%s)' % lib, 'detail': out[-2500:]})
+                    self.log('coqchk FAILED on', lib)
+                else:
+                    bad = [a for a in axioms if not axiom_allowed(a.split(' ')[0].split(':')[0])]
+                    res[lib] = {'status': 'ok', 'wall_s': round(dt, 1), 'axioms_of_closure': axioms, 'summary': summ[:1500]}
+                    if unsafe:
+                        self.proof_failures.append({'kind': 'gate', 'name': 'coqchk(%s)' % lib, 'detail': 'closure relies on disabled kernel checks: %s' % unsafe})
+                    if bad:
+                        self.proof_failures.append({'kind': 'gate', 'name': 'coqchk(%s)' % lib, 'detail': 'axioms not on the allow-list in the closure: %s' % bad})
+                    self.log('coqchk', lib, 'ok in %.0f s; axioms of the closure: %s' % (dt, ', '.join(axioms) or 'none'))
+                self.checker_cmds.append('coqchk -silent -o ... %s' % lib)
+        self.extra['coqchk'] = res
 
     def _locate_failure(self, out, path=None):
         m = re.search(r'File "([^"]+)", line (\d+), characters', out)
